@@ -48,3 +48,15 @@ pub fn get(id: &str, tier: Tier) -> Option<Property> {
         _ => return None,
     })
 }
+
+/// `mc --isolated <what> <args…>`: one execution in a process of its own.
+pub fn isolated(args: &[String]) -> i32 {
+    match args.first().map(|s| s.as_str()) {
+        Some("c07-empty-run") => {
+            let n = args.get(1).and_then(|s| s.parse().ok()).unwrap_or(0);
+            let at = args.get(2).and_then(|s| s.parse().ok()).unwrap_or(0);
+            c07::isolated_empty_run(n, at)
+        }
+        _ => 2,
+    }
+}
